@@ -33,3 +33,18 @@ def include_panic_guards(ck, facts, tier):
                       (c05, {"R05.4", "R05.5"}), (c06, {"R06.3"}), (c10, {"R10.4", "R10.6"})):
         with ck.restrict(only):
             _quiet(ck, lambda: mod.run(ck, facts, tier))
+
+
+def include_number_surface(ck, facts, tier):
+    """What a user touches is not only `Dual op Dual`: the `Number` container dispatches to the contained rule per kind case (C18 R18.3), iterator sums fold
+    with `+` from zero (C19 R19.4), and from Python every operator goes through the `#[pymethods]` wrappers (R18.4). The AD and naming properties hold for a
+    user only if those layers pass operands through unchanged, so C01, C02, C03 and C19 include these rules."""
+    from rules import c18, c19, pywrap
+    if getattr(ck, "_surface_done", False):
+        return
+    ck._surface_done = True
+    with ck.restrict({"R18.3"}):
+        _quiet(ck, lambda: c18.run(ck, facts, tier))
+    with ck.restrict({"R19.4"}):
+        _quiet(ck, lambda: c19.run(ck, facts, tier))
+    _quiet(ck, lambda: pywrap.run(ck, facts, tier))
